@@ -4,6 +4,7 @@ import builtins
 import copy
 import functools
 import inspect
+import keyword
 import logging
 import os
 import sys
@@ -906,27 +907,8 @@ class _InternalBaseTracer(_InternalBaseTracerSuper, metaclass=MetaTracerStateMac
         global_env, local_env = self._get_environments(
             global_env, local_env, num_extra_lookback_frames + 1
         )
-        # pytest inserts variables prepended with "@"; we don't want these
-        args_to_use = [
-            k for k in local_env.keys() if not k.startswith("@") and k != "__"
-        ]
-        if len(args_to_use) > 0:
-            sandbox_args = ", ".join(["*"] + args_to_use + ["**__"])
-        else:
-            sandbox_args = "**__"
         env_name = f"{PYCCOLO_BUILTIN_PREFIX}_pyccolo_local_env"
         fun_name = f"{PYCCOLO_BUILTIN_PREFIX}_pyccolo_sandbox"
-        sandboxed_code: Union[ast.Module, str] = textwrap.dedent(
-            f"""
-            {env_name} = dict(locals())
-            def {fun_name}({sandbox_args}):
-                return locals()
-            {env_name} = {fun_name}(**{env_name})
-            {env_name}.pop("__", None)
-            {env_name}.pop("builtins", None)
-            """
-        ).strip()
-        sandboxed_code = ast.parse(cast(str, sandboxed_code), filename, "exec")
         with (
             self.tracing_context(
                 disabled=self._is_tracing_hard_disabled,
@@ -951,14 +933,48 @@ class _InternalBaseTracer(_InternalBaseTracerSuper, metaclass=MetaTracerStateMac
                     code = ast.Module([code], [])
             if instrument and not visited:
                 code = self.make_ast_rewriter(path=filename).visit(code)
-            # prepend the stuff before "return locals()"
-            fundef: ast.FunctionDef = cast(ast.FunctionDef, sandboxed_code.body[1])
             if isinstance(code, ast.Module):
                 code_body: List[ast.stmt] = code.body
             else:
                 assert isinstance(code, ast.stmt)
                 code_body = [code]
-            _check_module_level_only(code_body, filename)
+            declared_global = _check_module_level_only(code_body, filename)
+            # the supplied locals become keyword-only parameters of the sandbox function; names that cannot be
+            # parameters (`class`, `a b`, ...) or that the program declares global are of no concern to its
+            # local scope and are passed through
+            args_to_use = [
+                k
+                for k in local_env.keys()
+                if isinstance(k, str)
+                and k.isidentifier()
+                and not keyword.iskeyword(k)
+                and k not in ("__", "__debug__")
+                and k not in declared_global
+            ]
+            # pytest inserts variables prepended with "@"; we don't want these
+            passed_through = [
+                k
+                for k in local_env.keys()
+                if k not in args_to_use
+                and not (isinstance(k, str) and (k.startswith("@") or k == "__"))
+            ]
+            if len(args_to_use) > 0:
+                sandbox_args = ", ".join(["*"] + args_to_use + ["**__"])
+            else:
+                sandbox_args = "**__"
+            sandboxed_code: Union[ast.Module, str] = textwrap.dedent(
+                f"""
+                {env_name} = dict(locals())
+                def {fun_name}({sandbox_args}):
+                    return locals()
+                {env_name} = {fun_name}(**{env_name})
+                {env_name}.pop("__", None)
+                {env_name}.pop("builtins", None)
+                """
+            ).strip()
+            sandboxed_code = ast.parse(cast(str, sandboxed_code), filename, "exec")
+            # prepend the stuff before "return locals()"
+            fundef: ast.FunctionDef = cast(ast.FunctionDef, sandboxed_code.body[1])
             fundef.body = code_body + fundef.body
             try:
                 self.exec_raw(
@@ -968,7 +984,11 @@ class _InternalBaseTracer(_InternalBaseTracerSuper, metaclass=MetaTracerStateMac
                     filename=filename,
                     instrument=False,
                 )
-                return local_env.pop(env_name)
+                result = local_env.pop(env_name)
+                for k in passed_through:
+                    if k in local_env:
+                        result.setdefault(k, local_env[k])
+                return result
             finally:
                 # never leave the scaffold's own names in the caller's mapping
                 local_env.pop(fun_name, None)
@@ -1151,6 +1171,7 @@ class _ModuleLevelChecker(ast.NodeVisitor):
 
     def __init__(self, filename: str) -> None:
         self.filename = filename
+        self.declared_global: Set[str] = set()
 
     def _error(self, what: str, node: ast.AST) -> None:
         raise SyntaxError(
@@ -1161,7 +1182,10 @@ class _ModuleLevelChecker(ast.NodeVisitor):
     def visit_FunctionDef(self, node: ast.AST) -> None:
         pass
 
-    visit_AsyncFunctionDef = visit_Lambda = visit_FunctionDef
+    visit_AsyncFunctionDef = visit_Lambda = visit_ClassDef = visit_FunctionDef
+
+    def visit_Global(self, node: ast.Global) -> None:
+        self.declared_global.update(node.names)
 
     def visit_Return(self, node: ast.Return) -> None:
         self._error("return", node)
@@ -1172,10 +1196,12 @@ class _ModuleLevelChecker(ast.NodeVisitor):
     visit_YieldFrom = visit_Yield
 
 
-def _check_module_level_only(body: List[ast.stmt], filename: str) -> None:
+def _check_module_level_only(body: List[ast.stmt], filename: str) -> Set[str]:
+    """returns the names the program declares global in its outermost scope"""
     checker = _ModuleLevelChecker(filename)
     for stmt in body:
         checker.visit(stmt)
+    return checker.declared_global
 
 
 def parse_function_source(f: Callable) -> ast.Module:
